@@ -7,7 +7,8 @@ documented behaviour of Content-Encoding: deflate in the wild; identity -> the b
 stops before the end-of-stream marker, must end in ProtocolError (never in partial content).
 Bound: payload corpus (empty, 1 byte, text, 70 KiB incompressible, 300 KiB zeros) x {gzip, gzip level 1, zlib, raw deflate, identity} x
 every segmentation into <= 2 cuts within the first 12 bytes and around the end + single-byte pieces for the first 64 bytes + seeded random
-cuts; truncations at every offset of the first and last 16 bytes; single-byte corruptions (seeded).  Quick ~4e4 decoder runs."""
+cuts; truncations at every offset of the first and last 16 bytes; single-byte corruptions (seeded); bodies that continue after the first complete member (second member, CRLF, zeros, junk) under every
+cut at or after the member boundary, against the same decoder fed the whole body at once.  Quick ~4e4 decoder runs."""
 import argparse, gzip, io, itertools, json, os, random, sys, time, zlib
 ROOT = os.path.dirname(os.path.dirname(os.path.abspath(__file__)))
 sys.path.insert(0, ROOT)
@@ -146,6 +147,25 @@ def main():
                     # a stricter verdict than the reference decoder's (zlib rejects header flags that the gzip module tolerates) is an error report, which the statement asks for;
                     # what must never happen is content that differs from the one-shot result, or an exception of another kind
                     if got[0] == 'escape' or (got[0] == 'ok' and (r2 is None or got[1] != r2)): record(kind, 'corruption', '%s body with byte %d flipped: %s, one-shot %s' % (kind, i, (got[0], got[1] if got[0] != 'ok' else '%d bytes' % len(got[1])), 'rejected' if r2 is None else '%d bytes' % len(r2)))
+    # bodies that go on after the end of the first compressed member (a second gzip member, stray CRLF, padding zeros, junk): whatever the decoder makes of them
+    # when it gets the whole body in one piece, it must make the same of every segmentation -- in particular of cuts AT and AFTER the member boundary
+    m1 = gzip.compress(b'first member ' * 5); m2 = gzip.compress(b'second member'); z1 = zlib.compress(b'zlib stream ' * 4); r1 = raw_deflate(b'raw stream ' * 4)
+    for kind, head, tails in [('gzip', m1, [m2, m2 + m1, b'\r\n', b'\0' * 8, b'junk after the member', m2[:5]]), ('deflate', z1, [z1, b'\r\n', b'\0' * 4, b'junk']), ('deflate', r1, [r1, b'\r\n', b'junk'])]:
+        for tail in tails:
+            data = head + tail
+            whole = stream_decode(kind, [data])
+            cutset = [(c,) for c in range(max(1, len(head) - 3), len(data))] + [(len(head), c) for c in range(len(head) + 1, len(data))] + [tuple(range(1, len(data)))]
+            for cuts in cutset:
+                n += 1; nontrivial += 1
+                got = stream_decode(kind, split(data, cuts))
+                if got != whole:
+                    record(kind, 'segmentation', '%s body = one complete member of %d bytes followed by %d more bytes (%r...), cut at %r: streaming gives %s, the same decoder fed the whole body at once gives %s' % (
+                        kind, len(head), len(tail), tail[:6], cuts[:4], (got[0], got[1] if got[0] != 'ok' else '%d bytes' % len(got[1])), (whole[0], whole[1] if whole[0] != 'ok' else '%d bytes' % len(whole[1]))))
+            for cuts in [(), (len(head),), (len(head) + 1,), (len(head) - 1, len(head) + 1)]:
+                if cuts and cuts[-1] >= len(data): continue
+                n += 1
+                a_ = through_stream(kind, [data], len(data)); b_ = through_stream(kind, split(data, cuts), len(data))
+                if a_ != b_: record(kind, 'stream', '%s body with %d bytes after the first member, cut at %r, through Stream.read_body: %s; in one read: %s' % (kind, len(tail), cuts, (b_[0], b_[1] if b_[0] != 'ok' else '%d bytes' % len(b_[1])), (a_[0], a_[1] if a_[0] != 'ok' else '%d bytes' % len(a_[1]))))
     doc = {'label': 'bounded', 'functions': ['wpull/decompression.py:GzipDecompressor', 'wpull/decompression.py:DeflateDecompressor', 'wpull/protocol/http/stream.py:Stream.read_body (length framing)'],
            'cases': n, 'distinct_nontrivial': nontrivial, 'bound': '%d payloads x 7 encodings x segmentations (<= 2 cuts near both ends, single bytes, %d seeded random) + truncations at 32 offsets + %d seeded bit flips each' % (len(payloads), extra, extra),
            'rule': 'a case is one decoding run', 'result': 'no violation' if not bad else '%d violations' % len(bad), 'violations': bad[:40], 'known_findings': [],
